@@ -17,7 +17,7 @@ use std::sync::Arc;
 
 /// Inputs of every shape the entry points accept, all exposing (a subset of) the
 /// same field names so that rules written against them evaluate deep.
-fn input_menu(rng: &mut Rng) -> (InputSpec, Vec<(String, Ty)>) {
+fn input_menu(rng: &mut Rng, thorough: bool) -> (InputSpec, Vec<(String, Ty)>) {
     let x = rng.range(0, 9);
     let y = rng.range(0, 9);
     let flag = rng.chance(1, 2);
@@ -33,6 +33,16 @@ fn input_menu(rng: &mut Rng) -> (InputSpec, Vec<(String, Ty)>) {
         ("age".into(), XV::I(x + 20)),
     ];
     let refs_all: Vec<(String, Ty)> = val_fields.iter().map(|(k, v)| (k.clone(), ty_of(v))).collect();
+    // deeply nested but perfectly serialisable inputs now and then
+    if rng.chance(1, 25) {
+        let max = if thorough { 1500 } else { 300 };
+        let depth = 2 + rng.below(max) as u32;
+        return if rng.chance(1, 2) {
+            (InputSpec::DeepVal { depth, leaf: x }, refs_all)
+        } else {
+            (InputSpec::DeepChain { depth }, vec![("v".into(), Ty::Int), ("next".into(), Ty::Map)])
+        };
+    }
     match rng.below(12) {
         0 | 1 | 2 | 3 => (InputSpec::Val(XV::M(val_fields)), refs_all),
         4 => (InputSpec::Val(XV::N), refs_all),
@@ -85,7 +95,7 @@ pub fn generate(verif_seed: u64, idx: u64, thorough: bool) -> Scenario {
     let seed = run_seed(verif_seed, "C09", family);
     let mut rng = Rng::new(seed);
     let mut scn = Scenario::new("C09");
-    let (input, refs) = input_menu(&mut rng);
+    let (input, refs) = input_menu(&mut rng, thorough);
     scn.symbols = standard_symbols(&mut rng);
     let syms = scn.symbols.iter().map(|(k, v)| (k.clone(), ty_of(v))).collect();
     let mut cfg = GenCfg::swarm(&mut rng);
@@ -95,7 +105,21 @@ pub fn generate(verif_seed: u64, idx: u64, thorough: bool) -> Scenario {
     cfg.max_probes = 6;
     scn.text_build = rng.chance(1, 12);
     // now and then a larger ruleset (chunked or sorted evaluation of many rules would show here)
-    let nrules = if rng.chance(1, 10) { 7 + rng.usize(10) } else { rng.usize(7) };
+    // … and rarely a very large one of tiny, mostly failing rules (state that accumulates per rule or
+    // per failure inside one evaluation only shows after hundreds of them)
+    let huge = rng.chance(1, 40);
+    let nrules = if huge {
+        100 + rng.usize(if thorough { 2500 } else { 700 })
+    } else if rng.chance(1, 10) {
+        7 + rng.usize(10)
+    } else {
+        rng.usize(7)
+    };
+    if huge {
+        cfg.p_err_leaf = *rng.pick(&[300, 600, 900]);
+        cfg.max_depth = 1;
+        cfg.p_chain = 0;
+    }
     let names = crate::c05::rule_names(&mut rng, nrules);
     let mut grng = rng.fork();
     let mut g = Gen::new(&mut grng, cfg, refs, syms);
@@ -104,7 +128,7 @@ pub fn generate(verif_seed: u64, idx: u64, thorough: bool) -> Scenario {
         g.probes = 0;
         let ty = *g.rng.pick(&ALL_TYS);
         // a rule that is a bare error leaf now and then: failure at the root
-        let d = if g.rng.chance(1, 6) { 0 } else { g.cfg.max_depth.min(3) };
+        let d = if g.rng.chance(1, 6) || (huge && g.rng.chance(2, 3)) { 0 } else { g.cfg.max_depth.min(3) };
         let expr = g.gen(ty, d);
         scn.rules.push(RuleSpec { name: names[i].clone(), expr });
     }
@@ -153,6 +177,7 @@ fn serialize_input(i: &Input) -> Result<Value, reval::Error> {
         Input::NestedBadKey(m) => m.serialize(ValueSerializer),
         Input::Unit => ().serialize(ValueSerializer),
         Input::StrKeyMap(m) => m.serialize(ValueSerializer),
+        Input::Chain(ch) => ch.serialize(ValueSerializer),
     }
 }
 
@@ -185,7 +210,7 @@ pub fn check(scn: &Scenario, c: &mut Counters) -> Verdict {
             return v;
         }
     };
-    let typed_entry = !matches!(spec, InputSpec::Val(_));
+    let typed_entry = !matches!(spec, InputSpec::Val(_) | InputSpec::DeepVal { .. });
 
     // ---- clause 4: the call as a whole fails only when the input cannot be serialised
     let bad_key = input_has_non_string_key(spec);
@@ -287,6 +312,7 @@ pub fn check(scn: &Scenario, c: &mut Counters) -> Verdict {
 
     // ---- clause 3: each outcome equals the rule evaluated alone on a fresh one-rule ruleset
     let mut fail_mask = 0u64;
+    let mut failed_count = 0usize;
     let mut sig = combine(n as u64, hash_str(&format!("{:?}", std::mem::discriminant(spec))));
     for i in 0..n {
         let mut s1 = scn.solo(0);
@@ -312,13 +338,16 @@ pub fn check(scn: &Scenario, c: &mut Counters) -> Verdict {
             );
         }
         if !alone.is_ok() {
-            fail_mask |= 1 << i;
+            if i < 64 {
+                fail_mask |= 1 << i;
+            }
+            failed_count += 1;
             c.bump(&format!("hit.rule_failed_with.{}", alone.class()));
         }
         sig = combine(sig, hash_str(alone.class()));
     }
     sig = combine(sig, fail_mask);
-    if fail_mask != 0 && fail_mask != (1 << n) - 1 {
+    if failed_count != 0 && failed_count != n {
         c.bump("hit.failing_and_succeeding_rules_mixed");
     }
     if fail_mask & 1 != 0 && n > 1 {
@@ -326,6 +355,14 @@ pub fn check(scn: &Scenario, c: &mut Counters) -> Verdict {
     }
     if n == 0 {
         c.bump("hit.empty_ruleset");
+    }
+    if failed_count >= 1 && n >= 300 {
+        c.bump("hit.ruleset_of_300_or_more_rules");
+    }
+    if let InputSpec::DeepVal { depth, .. } | InputSpec::DeepChain { depth } = spec {
+        if *depth > 128 {
+            c.bump("hit.input_nested_deeper_than_128");
+        }
     }
     c.add("rules.evaluated", n as u64);
     Verdict::pass(if n >= 2 || typed_entry { Some(sig) } else { None })
